@@ -263,6 +263,7 @@ struct Sim
   int delay_budget;
   uint64_t step_cap;
   int cores;
+  int affinity;   // CPUs in the process affinity mask (0: all of `cores`)
   int spurious;
   int clock_jumps;
   bool replaying;       // decisions come from the recorded lists
